@@ -653,6 +653,9 @@ func execC22(r *Run) {
 		c.Bag = nil
 		drainAll(c, 0)
 		r.NonTrivial = true
+		if res != nil {
+			res.Message = strings.ReplaceAll(res.Message, dir, "<dir>") // (the directory's name is random)
+		}
 		after := ringState()
 		fileAfter, _ := os.ReadFile(file)
 		r.Logf("%s key#%d variant=%q -> result=%v ring %s -> %s", s.S, s.K, s.T, res, before, after)
